@@ -155,6 +155,16 @@ def with_numpy(d: dict) -> dict:
 _SHARED: dict = {}
 
 
+def loose_twin(v):
+    """a value that compares == to v in Python (dict order ignored, 1 == 1.0 == True) without being the same data"""
+    if isinstance(v, dict):
+        return {k: loose_twin(x) for k, x in reversed(list(v.items()))}
+    if isinstance(v, list):
+        return [loose_twin(x) for x in v]
+    t = gen.numeric_twin(v)
+    return v if t is None else t
+
+
 def oracle_routes(ctx: Ctx, case: dict, d: dict, fl: str, suffix: str = "") -> None:
     from dictIO import DictReader, DictWriter, SDict
     exp = expected(d, fl)
@@ -193,6 +203,22 @@ def oracle_routes(ctx: Ctx, case: dict, d: dict, fl: str, suffix: str = "") -> N
             r3 = spec.strip_placeholders(impl.plain(SDict().load(td / ("g" + suffix))))
     except Exception as e:  # noqa: BLE001
         ctx.violation("file route raises", case, repr(e), enc(exp)); return
+    # route 2 onto an existing target (mode "w" replaces it): the file already holds a dict that is ==-equal to d in Python's
+    # loose sense but not the same (key order reversed, 1 / 1.0 / True swapped)
+    tw = loose_twin(d)
+    if not case.get("np") and enc(tw) != enc(d):
+        try:
+            with impl.scratch() as td:
+                reset_globals()
+                DictWriter.write(copy.deepcopy(tw), td / ("f" + suffix), mode="w")
+                DictWriter.write(copy.deepcopy(d), td / ("f" + suffix), mode="w")
+                r2b = spec.strip_placeholders(impl.plain(DictReader.read(td / ("f" + suffix))))
+        except Exception as e:  # noqa: BLE001
+            ctx.violation("file route (existing target) raises", case, repr(e), enc(exp)); return
+        if fl == "foam":
+            r2b = {k: v for k, v in r2b.items() if k != "FoamFile"}
+        if not same(r2b, exp):
+            ctx.violation("route DictWriter(mode w onto an existing, loosely equal file)+DictReader: read back differs from what was written", case, enc(r2b), enc(exp))
     exp_f = exp
     if fl == "foam":
         r3 = {k: v for k, v in r3.items() if k != "FoamFile"}
@@ -275,6 +301,7 @@ def run(ctx: Ctx) -> None:
     deepl: dict = {"items": [1, "deep x", "y"]}
     for k in "hgfedcba":
         deepl = {k: deepl, "s" + k: "x y"}
+    corpus += [{"l": [2, 2.0, 1.0, 1, True, 10**16, 1e16, 0, 0.0, False, -0.0, 0]}, {"a": 1, "b": 1.0, "c": True, "m": [[1, 1.0], [1.0, 1]]}]
     corpus += [deep, deepl, {"encoding": "latin-1", "author": "Jörg Müller"}, {"coding": "utf-16", "t": "é"}]
     for d in corpus:
         cases.append({"kind": "dict", "d": enc(d)}); ctx.corpus_cases += 1
